@@ -60,9 +60,9 @@ func final(v cue.Value) string {
 	for it.Next() {
 		fj, e := it.Value().MarshalJSON()
 		if e != nil {
-			fmt.Fprintf(&sb, " %s=<err>", it.Selector())
+			fmt.Fprintf(&sb, "\u241e%s=<err>", it.Selector())
 		} else {
-			fmt.Fprintf(&sb, " %s=%s", it.Selector(), fj)
+			fmt.Fprintf(&sb, "\u241e%s=%s", it.Selector(), fj)
 		}
 	}
 	return sb.String()
@@ -79,10 +79,28 @@ func sameFinal(a, b string) bool {
 		return e1 == nil && e2 == nil && dgen.Diff(x, y, true, false) == "" && dgen.Diff(y, x, true, false) == ""
 	}
 	if strings.HasPrefix(a, "NONDATA") && strings.HasPrefix(b, "NONDATA") {
-		fa, fb := strings.Fields(a), strings.Fields(b)
+		fa, fb := strings.Split(a, "\u241e"), strings.Split(b, "\u241e")
+		if len(fa) != len(fb) {
+			return false
+		}
 		sort.Strings(fa)
 		sort.Strings(fb)
-		return strings.Join(fa, " ") == strings.Join(fb, " ")
+		for i := range fa {
+			ka, va, _ := strings.Cut(fa[i], "=")
+			kb, vb, _ := strings.Cut(fb[i], "=")
+			if ka != kb {
+				return false
+			}
+			if va == vb {
+				continue
+			}
+			x, e1 := dgen.ParseJSON([]byte(va))
+			y, e2 := dgen.ParseJSON([]byte(vb))
+			if e1 != nil || e2 != nil || dgen.Diff(x, y, true, false) != "" || dgen.Diff(y, x, true, false) != "" {
+				return false
+			}
+		}
+		return true
 	}
 	return false
 }
@@ -179,18 +197,24 @@ var flds = []fld{
 	{"on", "*true | bool", []string{"true", "false"}},
 	{"tags", `[...string] | *["x"]`, []string{`["x"]`, `["y", "z"]`}},
 	{"lim", `{cpu: *1 | int, mem: *"1G" | string}`, []string{`{cpu: 1, mem: "1G"}`, `{cpu: 2}`, `{mem: "2G"}`}},
+	{"level", `*"info" | *"warn" | string`, []string{`"info"`, `"warn"`, `"debug"`}},
+	{"prio", `*1 | *2 | int`, []string{"1", "2", "3"}},
+	{"mode", `"a" | "b"`, []string{`"a"`, `"b"`}},
 }
 
 func gen(t *rapid.T) Case {
 	var schema, data strings.Builder
-	style := rapid.IntRange(0, 5).Draw(t, "style")
+	style := rapid.IntRange(0, 6).Draw(t, "style")
 	perm := rapid.Permutation(flds).Draw(t, "fperm")
 	fs := perm[:rapid.IntRange(1, len(flds)).Draw(t, "nf")]
 	var sch []string
 	for _, f := range fs {
 		opt := ""
-		if rapid.IntRange(0, 3).Draw(t, "opt") == 0 {
+		switch rapid.IntRange(0, 9).Draw(t, "opt") {
+		case 0, 1:
 			opt = "?"
+		case 2:
+			opt = "!"
 		}
 		sch = append(sch, fmt.Sprintf("%s%s: %s", f.name, opt, f.schema))
 	}
@@ -217,6 +241,14 @@ func gen(t *rapid.T) Case {
 			}
 			return strings.Join(s, ", ")
 		}(), body)
+	case 6: // a comprehension that reads the struct it writes; the base is declared before or after it
+		base := fmt.Sprintf("base: {%s}\n", body)
+		comp := "for name, _ in svc { svc: (name): base }\n"
+		if rapid.Bool().Draw(t, "basefirst") {
+			fmt.Fprintf(&schema, "%s%s", base, comp)
+		} else {
+			fmt.Fprintf(&schema, "%s%s", comp, base)
+		}
 	case 5: // embedded disjunction schema
 		fmt.Fprintf(&schema, "#A: {%s}\n#B: {kind2: *\"b\" | string}\nsvc: [string]: {#A, #B}\n", body)
 	}
@@ -247,7 +279,11 @@ func gen(t *rapid.T) Case {
 	c := Case{Kind: fmt.Sprintf("style%d", style)}
 	switch rapid.IntRange(0, 2).Draw(t, "files") {
 	case 0:
-		c.Files = []string{schema.String() + data.String()}
+		if rapid.Bool().Draw(t, "datafirst") {
+			c.Files = []string{data.String() + schema.String()}
+		} else {
+			c.Files = []string{schema.String() + data.String()}
+		}
 	case 1:
 		c.Files = []string{schema.String(), data.String()}
 	default:
